@@ -161,16 +161,43 @@ def check_rules(ctx, f, lp, ps):
            "an assignmentRule yields exactly one ('assignment', {'equation': ...}, 'repeated') and no reaction", '; '.join(sorted(set(problems_a))[:2]))
     ctx.ob('R13.2-rule-translation', 'rateRule', not problems_r and seen_r > 0, where,
            'a rateRule yields exactly one reaction and no rule', '; '.join(sorted(set(problems_r))[:2]))
-    # shapes of what is appended
-    txt = [util.stmt_key(s).replace(' ', '') for s in ast.walk(lp) if isinstance(s, ast.stmt)]
-    need = ["rule_formula=libsbml.formulaToL3String(%s.getMath())" % var, "rulevariable=%s.getVariable()" % var,
-            "rule_dict['equation']=rule_string", "rule_tuple=(rule_type,rule_dict,rule_frequency)", "allrules.append(rule_tuple)",
-            "propensity_params['type']='general'", "propensity_params['rate']=rule_formula",
-            "rule_rxn=([],[rulevariable],propensity_params['type'],propensity_params)", "allreactions.append(rule_rxn)"]
-    miss = [n for n in need if n not in txt]
-    strs = [t for t in txt if t.startswith('rule_string=')]
-    if not strs or any(t != "rule_string=rulevariable+'='+rule_formula" for t in strs):
-        miss.append("rule_string = rulevariable + '=' + rule_formula (got %s)" % strs)
+    # shapes of what is appended: the statements of every path are evaluated with the element's variable and formula as named holes
+    from ..templates import StrExec, Hole, UNKNOWN
+    miss = []
+    n_a = n_r = 0
+
+    def hook(n, ex):
+        t = src(n).replace(' ', '')
+        if t == 'libsbml.formulaToL3String(%s.getMath())' % var:
+            return Hole('FORMULA')
+        if t == '%s.getVariable()' % var:
+            return Hole('VARIABLE')
+        return None
+    for p in ps:
+        if p.exit != 'fall' or any(e.kind == 'test' and e.info and 'BioscrapeRule' in src(e.node) for e in p.events):
+            continue
+        ex = StrExec({}, (), call_hook=hook)
+        for e in p.stmts():
+            n = e.node
+            for c, what in [(c, 'rule') for c in paths.stmt_calls(n, 'allrules.append')] + [(c, 'reaction') for c in paths.stmt_calls(n, 'allreactions.append')]:
+                v = ex.ev(c.args[0]) if c.args else UNKNOWN
+                if what == 'rule':
+                    n_a += 1
+                    ok = isinstance(v, list) and len(v) == 3 and v[0] == 'assignment' and v[2] == 'repeated' and isinstance(v[1], dict) and \
+                        str(v[1].get('equation', '')).replace(' ', '') == 'VARIABLE=FORMULA' and set(v[1]) == {'equation'}
+                    if not ok:
+                        miss.append("an assignment rule is recorded as %r, expected ('assignment', {'equation': variable=formula}, 'repeated')" % (v,))
+                else:
+                    n_r += 1
+                    ok = isinstance(v, list) and len(v) == 4 and v[0] == [] and v[1] == ['VARIABLE'] and v[2] == 'general' and isinstance(v[3], dict) and \
+                        v[3].get('rate') == 'FORMULA' and set(v[3]) <= {'rate', 'type'} and v[3].get('type', 'general') == 'general'
+                    if not ok:
+                        miss.append("a rate rule is recorded as %r, expected ([], [variable], 'general', {'rate': formula})" % (v,))
+            if isinstance(n, (ast.Assign, ast.AugAssign)):
+                ex.stmt(n)
+    if n_a == 0 or n_r == 0:
+        raise AnalysisError('import_sbml_rules: appended rule / reaction not found on any path')
+    miss = sorted(set(miss))[:3]
     ctx.ob('R13.2-rule-shape', 'tuples', not miss, where,
            "the rule is variable=formula of this element; the rate-rule reaction is ([], [variable], 'general', {'rate': formula})", str(miss))
 
@@ -230,6 +257,22 @@ def check_stoichiometry(ctx, f, lp):
             ids = [util.stmt_key(s_).replace(' ', '') for s_ in sl.body]
             if '%sspecies=sbml_model.getSpecies(%s.getSpecies())' % (role, v) not in ids or '%sspecies_id=%sspecies.getId()' % (role, role) not in ids:
                 problems.append('the species id is not taken from this %s reference' % role)
+        # ... and the list built that way is what reaches the reaction tuple: it starts empty in this iteration and is never rebound,
+        # filtered or shortened afterwards (a species on both sides with unequal stoichiometries keeps its net coefficient)
+        binds = [n for n in ast.walk(lp) if isinstance(n, (ast.Assign, ast.AugAssign)) and
+                 any(src(t) == lst for t in (n.targets if isinstance(n, ast.Assign) else [n.target]))]
+        empties = [n for n in binds if isinstance(n, ast.Assign) and isinstance(n.value, ast.List) and not n.value.elts]
+        for n in binds:
+            if n not in empties:
+                problems.append('%s is rebound by `%s`' % (lst, util.stmt_key(n)[:70]))
+        if len(empties) != 1:
+            problems.append('%s is emptied %d times per reaction' % (lst, len(empties)))
+        for c in ast.walk(lp):
+            if isinstance(c, ast.Call) and isinstance(c.func, ast.Attribute) and src(c.func.value) == lst and \
+                    c.func.attr in ('remove', 'pop', 'clear', 'sort', 'reverse', 'insert', 'extend', '__delitem__'):
+                problems.append('%s.%s(...) changes the list after it was built' % (lst, c.func.attr))
+            if isinstance(c, ast.Delete) and any(src(t).startswith(lst + '[') for t in c.targets):
+                problems.append('entries of %s are deleted' % lst)
         ctx.ob('R13.3-stoichiometry', lst, not problems, where,
                'on every path each %s id is appended int(stoichiometry) times (once if the stoichiometry is not finite); nothing else is appended' % role,
                '; '.join(sorted(set(problems))[:3]))
@@ -323,6 +366,12 @@ def check_species(ctx):
             return sp.Ne(FA, 0)
         if t == 'np.isfinite(%s.getInitialConcentration())' % v:
             return sp.Ne(FC, 0)
+        if isinstance(n, ast.Call) and src(n.func) in ('np.isfinite', 'numpy.isfinite', 'math.isfinite') and len(n.args) == 1:
+            a = se.ex(n.args[0], env)       # a local holding one of the two getters' results
+            if a == A:
+                return sp.Ne(FA, 0)
+            if a == C:
+                return sp.Ne(FC, 0)
         return None
     se = symx.SymExec(None, None, call=call)
     g = ast.FunctionDef(name='g', args=ast.arguments(posonlyargs=[], args=[], kwonlyargs=[], kw_defaults=[], defaults=[]), body=body, decorator_list=[], type_params=[])
@@ -351,7 +400,10 @@ def check_species(ctx):
     # below is what the round trip (C12) needs, where rules can be scheduled or self-referential.
     f = func(ctx, 'import_sbml_parameters')
     txt = [util.stmt_key(s).replace(' ', '') for s in ast.walk(f) if isinstance(s, ast.stmt)]
-    ok = 'allparams[pid]=p.getValue()' in txt and 'pid=p.getId()' in txt
+    fdefs = {n_: v_ for n_, v_ in util.single_defs(f).items() if v_ is not None}
+    stores = [src(util.inline(n_.value, fdefs)).replace(' ', '') for n_ in ast.walk(f) if isinstance(n_, ast.Assign)
+              and isinstance(n_.targets[0], ast.Subscript) and src(n_.targets[0].value) == 'allparams']
+    ok = 'p.getValue()' in stores and 'pid=p.getId()' in txt
     ctx.ob('R13.5-initial-values', 'import_sbml_parameters', ok, ctx.loc('sbmlutil', f), 'global parameters keep their finite values', '')
 
 
@@ -368,12 +420,15 @@ def check_parameter_values(ctx, rule='R13.5-initial-values'):
     ps = paths.Enumerator().run(lp.body, paths.State())
     ctx.paths += len(ps)
     k_ = lambda t: t.replace(' ', '')
+    wrap = ast.FunctionDef(name='_body', args=ast.arguments(posonlyargs=[], args=[], kwonlyargs=[], kw_defaults=[], defaults=[]),
+                           body=lp.body, decorator_list=[], type_params=[])
+    defs = {n_: v_ for n_, v_ in util.single_defs(wrap).items() if v_ is not None and src(v_).replace(' ', '') == '%s.getValue()' % v}
     for p in ps:
-        tests = {k_(util.canon_test(e.node)): e.info for e in p.events if e.kind == 'test'}
+        tests = {k_(util.canon_test(util.inline(e.node, defs))): e.info for e in p.events if e.kind == 'test'}
         stores = [e.node for e in p.stmts() if isinstance(e.node, ast.Assign) and isinstance(e.node.targets[0], ast.Subscript)
                   and src(e.node.targets[0].value) == 'allparams']
         fin = [t for t in tests if 'isfinite(%s.getValue())' % v in t]
-        last = k_(src(stores[-1].value)) if stores else None
+        last = k_(src(util.inline(stores[-1].value, defs))) if stores else None
         idv = None
         if stores and isinstance(stores[-1].targets[0].slice, ast.Name):
             d = [e.node for e in p.stmts() if isinstance(e.node, ast.Assign) and src(e.node.targets[0]) == stores[-1].targets[0].slice.id]
